@@ -192,6 +192,17 @@ def run(ctx: core.Ctx):
             got = np.atleast_1d(np.asarray(val, dtype=float))
             if got.shape != want.shape or not all(feq(a, b) for a, b in zip(got, want)):
                 ctx.violation(f"batch/value/{key[3]}/{key[2]}", case, want.tolist(), got.tolist(), note="a batch of fuzzy outputs does not give the per-output results")
+            # the same batch with its degrees given as column vectors (n, 1): still one value per fuzzy output
+            if kind != "raises" and nb % 3 == 0:
+                kind2, val2, _ = defuzz(fl, T, cs[0], degrees=[c_[:, None] for c_ in cols])
+                ctx.count()
+                if kind2 == "raises":
+                    ctx.extra["column_vector_degrees_refused"] = ctx.extra.get("column_vector_degrees_refused", 0) + 1
+                else:
+                    got2 = np.asarray(val2, dtype=float).reshape(-1)
+                    if got2.shape != want.shape or not all(feq(a, b) for a, b in zip(got2, want)):
+                        ctx.violation(f"batch/value/{key[3]}/{key[2]}/column-vector-degrees", case, want.tolist(), got2.tolist(),
+                                      note="degrees given as (n, 1) column vectors do not give the per-output results")
     # tiny and random double degrees through the exact mirror
     n = 1500 if ctx.quick else 15000
     for i in range(n):
